@@ -235,7 +235,11 @@ def reused_module(make, make_sibling, warm):
     from pwv import core
     m = make_sibling()
     core.libcall(warm, m)       # ordinary use of the library: an exception here is the library's
-    m.load_state_dict(make().state_dict())
+    fresh = make()
+    try:
+        m.load_state_dict(fresh.state_dict())
+    except RuntimeError:
+        return fresh            # the sibling's buffers do not have the same shapes (any more): no reuse possible
     return m
 
 
